@@ -17,6 +17,7 @@ import (
 
 	"github.com/hashicorp/consul/agent/consul/state"
 	"github.com/hashicorp/consul/agent/structs"
+	"github.com/hashicorp/consul/api"
 	"github.com/hashicorp/consul/proto/private/pbpeering"
 )
 
@@ -30,6 +31,56 @@ var witnessName = map[maskSet]string{
 	mStaleKindName:    "donor-has-unbacked-kind-service-name-after-an-instance-was-re-registered-under-another-name-kind-or-destination",
 	mWildcardUnbacked: "donor-has-wildcard-gateway-mapping",
 	mStaleDestName:    "donor-has-destination-kind-service-name-without-a-service-defaults-destination",
+	mStaleHash:        "donor-has-config-entry-whose-stored-hash-is-not-the-hash-of-its-content",
+	mUnheldUUID:       "donor-has-peering-secret-uuid-no-secrets-row-holds",
+	mNodeSpelling:     "donor-has-service-row-whose-node-name-spelling-differs-from-its-node-row",
+	mNameSpelling:     "history-registered-one-service-name-in-two-letter-case-spellings",
+}
+
+// histFacts: what the witnesses need to know about the history up to the cut (not readable off the store).
+type histFacts struct {
+	renamed  bool            // some instance was re-registered under another name / kind / destination
+	variants map[string]bool // lower-cased service names that were registered in more than one letter-case spelling
+}
+
+// nameTracker accumulates the spellings of service names over a history.
+type nameTracker struct {
+	spellings map[string]map[string]bool
+	variants  map[string]bool
+}
+
+func newNameTracker() *nameTracker {
+	return &nameTracker{spellings: map[string]map[string]bool{}, variants: map[string]bool{}}
+}
+
+func (t *nameTracker) note(st *state.Store) {
+	add := func(n string) {
+		l := strings.ToLower(n)
+		if t.spellings[l] == nil {
+			t.spellings[l] = map[string]bool{}
+		}
+		t.spellings[l][n] = true
+		if len(t.spellings[l]) > 1 {
+			t.variants[l] = true
+		}
+	}
+	st.WalkAllTables(func(table string, item interface{}) bool {
+		if sn, ok := item.(*structs.ServiceNode); ok {
+			add(sn.ServiceName)
+			if sn.ServiceKind == structs.ServiceKindConnectProxy {
+				add(sn.ServiceProxy.DestinationServiceName)
+			}
+		}
+		return true
+	})
+}
+
+func (t *nameTracker) snapshot() map[string]bool {
+	out := map[string]bool{}
+	for k := range t.variants {
+		out[k] = true
+	}
+	return out
 }
 
 // storeEnv: facts about one store that the renderings consult.
@@ -37,14 +88,18 @@ type storeEnv struct {
 	svcs  map[svcKey]svcInfo
 	kinds map[string]bool // "kind\x00name" pairs a registered local instance backs
 	pairs map[string]bool // "upstream\x00downstream" pairs the registered proxies give rise to
+	nodes map[string]string // "node\x00peer" (lower case) -> the node row's spelling
 }
 
 // servicesAndKindsOf: the service instances, and the (kind, name) pairs that upsertKindServiceName
 // would record for them (the kind of each local instance under its name; "connect-enabled" for
 // the destination of a proxy and for a connect-native service).
 func envOf(st *state.Store) *storeEnv {
-	e := &storeEnv{svcs: map[svcKey]svcInfo{}, kinds: map[string]bool{}, pairs: map[string]bool{}}
+	e := &storeEnv{svcs: map[svcKey]svcInfo{}, kinds: map[string]bool{}, pairs: map[string]bool{}, nodes: map[string]string{}}
 	st.WalkAllTables(func(table string, item interface{}) bool {
+		if n, ok := item.(*structs.Node); ok {
+			e.nodes[strings.ToLower(n.Node+"\x00"+n.PeerName)] = n.Node
+		}
 		if sd, ok := item.(*structs.ServiceConfigEntry); ok && sd.Destination != nil {
 			e.kinds[strings.ToLower(string(structs.ServiceKindDestination)+"\x00"+sd.Name)] = true
 		}
@@ -88,6 +143,32 @@ func instanceSigs(st *state.Store) map[svcKey]string {
 	return out
 }
 
+// txnRenames: the command is a transaction that writes one instance twice, under two names / kinds /
+// destinations (a re-registration that the stores before and after the command do not show).
+func txnRenames(data []byte) bool {
+	if len(data) == 0 || structs.MessageType(data[0]) != structs.TxnRequestType {
+		return false
+	}
+	var req structs.TxnRequest
+	if err := structs.Decode(data[1:], &req); err != nil {
+		return false
+	}
+	seen := map[svcKey]string{}
+	for _, op := range req.Ops {
+		if op.Service == nil || op.Service.Verb == api.ServiceDelete || op.Service.Verb == api.ServiceDeleteCAS {
+			continue
+		}
+		sv := op.Service.Service
+		k := svcKey{strings.ToLower(op.Service.Node), strings.ToLower(sv.ID), ""}
+		sig := fmt.Sprintf("%s|%s|%s|%v", sv.Service, sv.Kind, sv.Proxy.DestinationServiceName, sv.Connect.Native)
+		if old, ok := seen[k]; ok && old != sig {
+			return true
+		}
+		seen[k] = sig
+	}
+	return false
+}
+
 // reRegistered: some instance present before is present after with another name / kind / destination.
 func reRegistered(before, after map[svcKey]string) bool {
 	for k, v := range before {
@@ -108,6 +189,11 @@ type witness struct {
 	leftover   map[string]bool // names of proxy rows no registered proxy gives rise to
 	staleKinds map[string]bool // kinds that have an unbacked kind-service-names row
 	orphanIDs  map[string]bool // quoted secret ids of secrets rows without a peering row
+	missing    map[string]bool // "upstream\x00downstream" pairs a registered proxy declares but no row records
+	staleHash  map[string]bool // "kind\x00name" of config entries whose stored hash is not the hash of their content
+	unheldIDs  map[string]bool // quoted ids in peering-secret-uuids that no secrets row holds
+	respelled  map[string]bool // "node\x00peer" (lower case) of nodes with a service row spelled otherwise
+	variants   map[string]bool // lower-cased service names registered in several spellings so far
 }
 
 func (w *witness) has(m maskSet) bool { return w != nil && w.masks&m != 0 }
@@ -118,6 +204,15 @@ func (w *witness) without(m maskSet) *witness {
 	return &c
 }
 
+// ctx: the rendering context for values read from a store with environment [env].
+func (w *witness) ctx(env *storeEnv, refresh bool) *canonCtx {
+	c := &canonCtx{masks: w.maskOf(), refresh: refresh, svcs: env.svcs, nodes: env.nodes}
+	if w != nil {
+		c.staleHash, c.respelled, c.variants = w.staleHash, w.respelled, w.variants
+	}
+	return c
+}
+
 func (w *witness) maskOf() maskSet {
 	if w == nil {
 		return 0
@@ -126,11 +221,17 @@ func (w *witness) maskOf() maskSet {
 }
 
 // computeWitness evaluates every witness predicate on a (donor) store.
-// [renamed]: some instance was re-registered under another name / kind / destination so far.
-func computeWitness(st *state.Store, renamed bool) *witness {
+func computeWitness(st *state.Store, hf histFacts) *witness {
+	renamed := hf.renamed
 	w := &witness{staleNames: map[string]bool{}, gwNames: map[string]bool{}, topoNames: map[string]bool{}, leftover: map[string]bool{},
-		staleKinds: map[string]bool{}, orphanIDs: map[string]bool{}}
+		staleKinds: map[string]bool{}, orphanIDs: map[string]bool{}, missing: map[string]bool{}, staleHash: map[string]bool{},
+		unheldIDs: map[string]bool{}, respelled: map[string]bool{}, variants: hf.variants}
+	if len(hf.variants) > 0 {
+		w.masks |= mNameSpelling
+	}
 	env := envOf(st)
+	rowPairs := map[string]bool{}
+	var uuids []string
 	idx := map[string]uint64{}
 	peerings := map[string]bool{}
 	var secrets []*pbpeering.PeeringSecrets
@@ -152,6 +253,21 @@ func computeWitness(st *state.Store, renamed bool) *witness {
 						w.staleNames[strings.ToLower(v.ServiceName)] = true
 					}
 				}
+			}
+		case *structs.ServiceNode:
+			k := strings.ToLower(v.Node + "\x00" + v.PeerName)
+			if sp, ok := env.nodes[k]; ok && sp != v.Node {
+				w.masks |= mNodeSpelling
+				w.respelled[k] = true
+			}
+		case structs.ConfigEntry:
+			if h, err := structs.HashConfigEntry(v); err == nil && h != v.GetHash() {
+				w.masks |= mStaleHash
+				w.staleHash[v.GetKind()+"\x00"+v.GetName()] = true
+			}
+		case string:
+			if table == "peering-secret-uuids" {
+				uuids = append(uuids, v)
 			}
 		case *structs.GatewayService:
 			w.masks |= mGatewayStamp
@@ -184,6 +300,7 @@ func computeWitness(st *state.Store, renamed bool) *witness {
 					down := strings.ToLower(rv.FieldByName("Downstream").FieldByName("Name").String())
 					w.masks |= mTopologyStamp
 					w.topoNames[up], w.topoNames[down] = true, true
+					rowPairs[up+"\x00"+down] = true
 					if !env.pairs[up+"\x00"+down] {
 						w.leftover[up], w.leftover[down] = true, true
 					}
@@ -204,6 +321,29 @@ func computeWitness(st *state.Store, renamed bool) *witness {
 	for _, u := range usage {
 		if u.cnt == 0 || u.idx != expect {
 			w.masks |= mUsage
+		}
+	}
+	for p := range env.pairs {
+		if !rowPairs[p] {
+			// a registered proxy declares the pair, yet no row records it (another instance dropping
+			// the upstream deleted the whole row)
+			w.masks |= mTopologyStamp
+			w.missing[p] = true
+			ud := strings.SplitN(p, "\x00", 2)
+			w.topoNames[ud[0]], w.topoNames[ud[1]] = true, true
+			w.leftover[ud[0]], w.leftover[ud[1]] = true, true
+		}
+	}
+	held := map[string]bool{}
+	for _, s := range secrets {
+		for _, id := range []string{s.GetEstablishment().GetSecretID(), s.GetStream().GetPendingSecretID(), s.GetStream().GetActiveSecretID()} {
+			held[id] = true
+		}
+	}
+	for _, id := range uuids {
+		if !held[id] {
+			w.masks |= mUnheldUUID
+			w.unheldIDs[strconv.Quote(id)] = true
 		}
 	}
 	for _, s := range secrets {
@@ -306,15 +446,19 @@ func dumpStore(st *state.Store) *storeDump {
 // [refresh]: re-copy the check's service fields (the donor side always; the restored side only
 // after a suffix, when both sides may have created the same new stale checks).
 func (d *storeDump) lenient(table string, w *witness, refresh bool) []string {
-	c := &canonCtx{masks: w.maskOf(), refresh: refresh, svcs: d.env.svcs}
+	c := w.ctx(d.env, refresh)
 	var out []string
 	for _, item := range d.items[table] {
 		switch table {
 		case "usage":
+			ue := reflect.Indirect(reflect.ValueOf(item))
+			id := ue.FieldByName("ID").String()
+			if w.has(mNameSpelling) && id == "service-names" {
+				continue // how many names there are depends on which spellings count as one
+			}
 			if w.has(mUsage) {
-				ue := reflect.Indirect(reflect.ValueOf(item))
 				if cnt := ue.FieldByName("Count").Int(); cnt != 0 {
-					out = append(out, fmt.Sprintf("{ID:%q,Count:%d}", ue.FieldByName("ID").String(), cnt))
+					out = append(out, fmt.Sprintf("{ID:%q,Count:%d}", id, cnt))
 				}
 				continue
 			}
@@ -343,6 +487,9 @@ func (d *storeDump) lenient(table string, w *witness, refresh bool) []string {
 				if !d.env.pairs[up+"\x00"+down] {
 					continue // left over from a proxy's previous destination
 				}
+				if w.missing[up+"\x00"+down] {
+					continue // the donor lost this row when another instance dropped the upstream
+				}
 			}
 		case "kind-service-names":
 			ksn := item.(*state.KindServiceName)
@@ -357,6 +504,9 @@ func (d *storeDump) lenient(table string, w *witness, refresh bool) []string {
 			}
 		case "peering-secret-uuids":
 			if id, ok := item.(string); ok && w.has(mOrphanSecret) && w.orphanIDs[strconv.Quote(id)] {
+				continue
+			}
+			if id, ok := item.(string); ok && w.has(mUnheldUUID) && w.unheldIDs[strconv.Quote(id)] {
 				continue
 			}
 		}
@@ -386,7 +536,14 @@ func known(m maskSet) map[string]any {
 func tableFinding(d tableDiff, w *witness) maskSet {
 	switch d.Table {
 	case "usage":
+		if w.has(mNameSpelling) && strings.Contains(d.Donor+d.Other, `"service-names"`) && (!w.has(mUsage) || strings.Contains(d.Donor+d.Other, "Count")) {
+			return mNameSpelling
+		}
 		return mUsage
+	case "services":
+		return mNodeSpelling
+	case "config-entries":
+		return mStaleHash
 	case "checks":
 		return mCheckRefresh
 	case "gateway-services":
@@ -406,8 +563,21 @@ func tableFinding(d tableDiff, w *witness) maskSet {
 		}
 		return mGatewayStamp
 	case "peering-secret-uuids":
+		if w.has(mUnheldUUID) && !w.has(mOrphanSecret) {
+			return mUnheldUUID
+		}
+		if w.has(mUnheldUUID) {
+			for q := range w.unheldIDs {
+				if strings.Contains(d.Donor+d.Other, q) {
+					return mUnheldUUID
+				}
+			}
+		}
 		return mOrphanSecret
 	case "kind-service-names":
+		if w.has(mNameSpelling) && !w.has(mStaleKindName) && !w.has(mStaleDestName) {
+			return mNameSpelling
+		}
 		if w.has(mStaleDestName) && !w.has(mStaleKindName) {
 			return mStaleDestName
 		}
@@ -517,6 +687,9 @@ func queryRule(name string, w *witness) (idxMasks maskSet, resultMask maskSet) {
 		if w.has(mUsage) {
 			idxMasks |= mUsage
 		}
+		if fam == "ServiceUsage" && w.has(mNameSpelling) {
+			idxMasks |= mNameSpelling
+		}
 	case "ServiceChecks":
 		if w.has(mCheckRefresh) && w.staleNames[arg] {
 			idxMasks |= mCheckRefresh
@@ -551,6 +724,8 @@ func queryRule(name string, w *witness) (idxMasks maskSet, resultMask maskSet) {
 			idxMasks |= mTopologyStamp
 		}
 		switch {
+		case w.has(mNameSpelling):
+			resultMask = mNameSpelling // ... in whichever spelling the kind-service-names row has
 		case w.has(mStaleKindName):
 			resultMask = mStaleKindName // intention-derived up/downstreams range over the kind-service-names rows
 		case w.has(mStaleDestName):
@@ -574,7 +749,7 @@ func queryRule(name string, w *witness) (idxMasks maskSet, resultMask maskSet) {
 
 // render: the query's result and index as the findings whose witness holds allow them to be.
 func (q *queryResult) render(w *witness, refresh bool) string {
-	c := &canonCtx{masks: w.maskOf(), refresh: refresh, svcs: q.env.svcs}
+	c := w.ctx(q.env, refresh)
 	idxMasks, resultMask := queryRule(q.name, w)
 	if resultMask != 0 {
 		return "idx=* (result masked: " + maskKind[resultMask] + ")"
@@ -586,6 +761,9 @@ func (q *queryResult) render(w *witness, refresh bool) string {
 	if kn, ok := q.res.(kindNames); ok {
 		var names []string
 		for i, n := range kn.Names {
+			if w.has(mNameSpelling) && w.variants[strings.ToLower(n)] {
+				n = strings.ToLower(n)
+			}
 			if idxMasks&(mStaleKindName|mStaleDestName) == 0 || kn.Backed[i] {
 				names = append(names, n)
 			}
